@@ -30,7 +30,7 @@ def plan(tier):
 
 
 def run(tier, seed):
-    return checkbase.run_e1("C04", tier, seed, TECH, plan(tier), monitors.c04, 200, 1500,
+    return checkbase.run_e1("C04", tier, seed, TECH, (lambda: plan(tier)), monitors.c04, 200, 1500,
                             "executions = complete runs of the real traversal, one per choice sequence (durations incl. 3 and 5 back-off periods, outcomes, "
                             "tie order) with at most k non-default choices; distinct = distinct (scenario, (worker,test,status) sequence)",
                             ["a test is modelled by the world; durations stay within the timeout budget (the over-run branch is explored separately in thorough)",
